@@ -43,5 +43,6 @@ txt = re.sub(r'passes after each\), \d+ are recorded', 'passes after each), %d a
 txt = re.sub(r'\d+ independently seeded changes', '%d independently seeded changes' % n, txt)
 txt = re.sub(r'of the\s+\d+ seeded changes were missed', 'of the %d seeded changes were missed at first' % n, txt)
 txt = re.sub(r'\b\d+ property theorems', '%d property theorems' % nthm, txt)
+txt = re.sub(r'Of the \d+ seeded changes', 'Of the %d seeded changes' % n, txt)
 open(os.path.join(ROOT, 'DESIGN.md'), 'w').write(txt)
 print('DESIGN.md: %d bytes, %d theorems, %d fixed, %d known, %d seeded (%d detected)' % (len(txt), nthm, nfix, nknown, n, det))
